@@ -210,7 +210,7 @@ def storage_leg(seed, n):
 
 def run(tier, seed):
     rep = Report("C13", tier, seed, "exploration")
-    n, nq = (100, 10) if tier == "quick" else (5000, 14)
+    n, nq = (400, 10) if tier == "quick" else (5000, 14)
     rep.rule = ("SQL leg: tables with the key at any position / of INT, BIGINT, SMALLINT, VARCHAR, DATE type over 4 layouts, "
                 "1-5 inserts + deletes + compactions, ranges =,<,<=,>,>=,two-sided,reversed,contradictory with optional residual "
                 "and any projection; distinct non-trivial = distinct (history, query) whose range was pushed into the scan "
@@ -229,7 +229,7 @@ def run(tier, seed):
             rep.sample(res["sample"], limit=4)
         for v in res["violations"]:
             rep.add_violation(Violation(v["signature"], v["what"], res.get("witness")))
-    st = storage_leg(seed, 400 if tier == "quick" else 20000)
+    st = storage_leg(seed, 2000 if tier == "quick" else 20000)
     if st is None:
         rep.inc("storage leg: watchdog")
     elif "error" in st:
